@@ -301,6 +301,7 @@ func Serve(opts Options) error {
 	} else {
 		lock = new(rwmutex)
 	}
+	lock = verifWrapLock(lock)
 
 	// Initialize the s
 	s := &Server{
